@@ -24,11 +24,12 @@ ASSUMPTIONS = ["I-JEPA domain: the smallest possible encoder block has more than
                "C17 makes no termination claim"]
 
 
-def _samples(B, views, as_list, C=1, H=2, W=2):
+def _samples(B, views, as_list, C=1, H=2, W=2, list_len=None):
     out = []
     for k in range(B):
         if as_list:
-            x = [torch.full((C, H, W), float(k * 10 + v)) for v in range(views)]
+            # a multi-crop batch may carry more crops than masked views (e.g. 2 global + 4 local crops, num_views=2)
+            x = [torch.full((C, H, W) if v < views else (C, 1, 1), float(k * 10 + v)) for v in range(list_len or views)]
         else:
             x = torch.full((C, H, W), float(k))
         out.append((x, {"tag": torch.tensor(float(k))}))
@@ -39,14 +40,24 @@ def check_dino(spec):
     from kappadata.collators import KDDinoMaskCollator
     B, V, h, w = spec["B"], spec["V"], spec["h"], spec["w"]
     a, b = spec["ratio"]
+    # a list of views as the only item would be ambiguous for the static mode helpers (a bare list looks like an item tuple),
+    # so multi-view batches use the two-item mode "index x" (as the library's own tests do)
+    mode = "index x" if spec["as_list"] else "x"
     coll = KDDinoMaskCollator(mask_ratio=(a, b), mask_prob=spec["prob"], mask_size=(h, w), num_views=V,
-                              min_num_patches=spec["min_patches"], min_aspect=spec["min_aspect"], dataset_mode="x", return_ctx=True)
+                              min_num_patches=spec["min_patches"], min_aspect=spec["min_aspect"], dataset_mode=mode, return_ctx=True)
     coll.set_rng(np.random.default_rng(spec["seed"]))
-    samples = _samples(B, V, spec["as_list"])
+    samples = _samples(B, V, spec["as_list"], list_len=V + spec.get("extra_crops", 0))
+    if spec["as_list"]:
+        samples = [((k, s[0]), s[1]) for k, s in enumerate(samples)]
     batch, ctx = coll(samples)
     # batch unchanged
     exp = torch.utils.data.default_collate([s[0] for s in samples])
-    same = all(torch.equal(x, y) for x, y in zip(batch, exp)) if isinstance(exp, list) else torch.equal(batch, exp)
+
+    def _same(a_, b_):
+        if isinstance(b_, (list, tuple)):
+            return isinstance(a_, (list, tuple)) and len(a_) == len(b_) and all(_same(x, y) for x, y in zip(a_, b_))
+        return torch.equal(a_, b_)
+    same = _same(batch, exp)
     if not same:
         raise Violation("dino:batch-changed", "")
     if ctx["tag"].tolist() != [float(k) for k in range(B)]:
@@ -63,9 +74,9 @@ def check_dino(spec):
     if int(counts.max()) > limit:
         raise Violation("dino:mask-exceeds-upper-ratio", f"{int(counts.max())} cells masked, upper ratio {b} of {h * w} allows {limit}")
     # without a context nothing is added and the batch is returned
-    coll2 = KDDinoMaskCollator(mask_ratio=(a, b), mask_prob=spec["prob"], mask_size=(h, w), num_views=V, dataset_mode="x", return_ctx=False)
+    coll2 = KDDinoMaskCollator(mask_ratio=(a, b), mask_prob=spec["prob"], mask_size=(h, w), num_views=V, dataset_mode=mode, return_ctx=False)
     b2 = coll2([s[0] for s in samples])
-    same = all(torch.equal(x, y) for x, y in zip(b2, exp)) if isinstance(exp, list) else torch.equal(b2, exp)
+    same = _same(b2, exp)
     if not same:
         raise Violation("dino:batch-changed-without-ctx", "")
     frac = B * V * spec["prob"]
@@ -110,6 +121,7 @@ def check_ijepa(spec):
     from kappadata.collators import KDIjepaMaskCollator
     H, W = spec["gh"], spec["gw"]
     ps = spec["patch"]
+    ph, pw = (ps, ps) if isinstance(ps, int) else ps
     enc, pred = _areas(H, W, spec)
     if min(min(e) for e in enc) < 1 or min(min(p) for p in pred) < 1:
         raise Refused("a configured block can have zero patches")
@@ -121,7 +133,7 @@ def check_ijepa(spec):
     B = spec["B"]
 
     def make(seed):
-        c = KDIjepaMaskCollator(input_size=(H * ps, W * ps), patch_size=ps, encoder_mask_scale=tuple(spec["enc_scale"]),
+        c = KDIjepaMaskCollator(input_size=(H * ph, W * pw), patch_size=ps if isinstance(ps, int) else tuple(ps), encoder_mask_scale=tuple(spec["enc_scale"]),
                                 predictor_mask_scale=tuple(spec["pred_scale"]), predictor_aspect_ratio=tuple(spec["pred_ar"]),
                                 num_enc_masks=spec["n_enc"], num_pred_masks=spec["n_pred"], min_keep=spec["min_keep"],
                                 tries=spec["tries"], dataset_mode="x", return_ctx=True)
@@ -179,7 +191,7 @@ def check_ijepa(spec):
             evals += 1
         if dims[0] != dims[1]:
             raise Violation("ijepa:block-size-depends-on-rng", f"step {step}: {dims[0]} vs {dims[1]} for different rng seeds")
-    nt = H != W or spec["n_pred"] >= 2 or spec["steps"] >= 2
+    nt = H != W or spec["n_pred"] >= 2 or spec["steps"] >= 2 or ph != pw
     return Case(nt, ["disjoint-claimed" if disjoint_claimed else "relaxation-possible", "steps=%d" % spec["steps"]], evals)
 
 
@@ -187,8 +199,8 @@ RATIO = st.tuples(st.sampled_from([0.0, 0.1, 0.3, 0.5]), st.sampled_from([0.0, 0
 DINO = st.fixed_dictionaries({"B": st.integers(1, 8), "V": st.integers(1, 3), "as_list": st.booleans(), "h": st.integers(2, 16),
                               "w": st.integers(2, 16), "ratio": RATIO, "prob": st.sampled_from([0.0, 0.25, 0.5, 0.3, 0.75, 1.0]),
                               "min_patches": st.sampled_from([1, 4, 8]), "min_aspect": st.sampled_from([0.3, 0.1, 1.0]),
-                              "seed": st.integers(0, 2 ** 32 - 1)})
-IJEPA = st.fixed_dictionaries({"gh": st.integers(3, 16), "gw": st.integers(3, 16), "patch": st.sampled_from([1, 4, 16]),
+                              "seed": st.integers(0, 2 ** 32 - 1), "extra_crops": st.sampled_from([0, 0, 1, 4])})
+IJEPA = st.fixed_dictionaries({"gh": st.integers(3, 16), "gw": st.integers(3, 16), "patch": st.sampled_from([1, 4, 16, [8, 4], [4, 8], [2, 3]]),
                                "enc_scale": st.sampled_from([[0.85, 1.0], [0.5, 0.7], [0.3, 0.3], [0.6, 1.0]]),
                                "pred_scale": st.sampled_from([[0.15, 0.2], [0.05, 0.1], [0.1, 0.3], [0.02, 0.02]]),
                                "pred_ar": st.sampled_from([[0.75, 1.5], [1.0, 1.0], [0.5, 2.0]]),
